@@ -63,7 +63,7 @@ long g_cap0, g_off0; /* ghosts: capacity and offset of the pre-state, set by the
 /* The representation invariant (stronger than check_state(): also the empty-vector normal form the code relies on
    in get_capacity_min_index()). Pure relation over assigned pointers: usable in requires and ensures. */
 #define VWO_VALID(v)                                                                                                  \
-  ((v)->start > -VWO_MAXIDX && (v)->start < VWO_MAXIDX && (v)->length <= VWO_MAXLEN                                    \
+  ((v)->start > -VWO_MAXIDX && (v)->start < VWO_MAXIDX && (v)->length <= VWO_MAXLEN && (long)(v)->start + (long)(v)->length <= VWO_MAXIDX                                   \
    && ((v)->begin_allocated_memory == NULL                                                                            \
            ? ((v)->end_allocated_memory == NULL && (v)->num == NULL && (v)->length == 0 && (v)->start == 0             \
               && (v)->allocated_memory_sptr == NULL)                                                                  \
@@ -84,20 +84,22 @@ long g_cap0, g_off0; /* ghosts: capacity and offset of the pre-state, set by the
    so callers need no knowledge of the offsets used inside the caller */
 #define PTR_IN(p, first, last)                                                                                        \
   (__CPROVER_same_object(p, first) && VWO_POFF(p) >= VWO_POFF(first) && VWO_POFF(p) < VWO_POFF(last))
-T* K_std_copy(const T* first, const T* last, T* out)
+T* K_std_copy(const T* first, const T* last, T* out, const T* gp)
 __CPROVER_requires(first == last || (__CPROVER_same_object(first, last) && VWO_POFF(last) >= VWO_POFF(first)
                    && (VWO_POFF(last) - VWO_POFF(first)) / (long)sizeof(T) <= VWO_MAXLEN
                    && __CPROVER_r_ok(first, VWO_POFF(last) - VWO_POFF(first)) && __CPROVER_w_ok(out, VWO_POFF(last) - VWO_POFF(first))
                    && !__CPROVER_same_object(first, out)))
 __CPROVER_assigns(first != last : __CPROVER_object_upto(out, VWO_POFF(last) - VWO_POFF(first)))
-__CPROVER_ensures((first != last && PTR_IN(g_p, first, last)) ==> out[(VWO_POFF(g_p) - VWO_POFF(first)) / (long)sizeof(T)] == *g_p)
+/* gp: ghost parameter supplied by the caller, a pointer to "any" source element: that element arrives at the same
+   distance from out as it has from first */
+__CPROVER_ensures((first != last && PTR_IN(gp, first, last)) ==> out[(VWO_POFF(gp) - VWO_POFF(first)) / (long)sizeof(T)] == *gp)
 __CPROVER_ensures(first == last ? __CPROVER_return_value == out : __CPROVER_return_value == out + (VWO_POFF(last) - VWO_POFF(first)) / (long)sizeof(T))
 {
   long n = first == last ? 0 : (VWO_POFF(last) - VWO_POFF(first)) / (long)sizeof(T);
   for (long k = 0; k < n; ++k)
     __CPROVER_assigns(k, __CPROVER_object_upto(out, n * sizeof(T)))
     __CPROVER_loop_invariant(0 <= k && k <= n)
-    __CPROVER_loop_invariant((PTR_IN(g_p, first, last) && (VWO_POFF(g_p) - VWO_POFF(first)) / (long)sizeof(T) < k) ==> out[(VWO_POFF(g_p) - VWO_POFF(first)) / (long)sizeof(T)] == *g_p)
+    __CPROVER_loop_invariant((PTR_IN(gp, first, last) && (VWO_POFF(gp) - VWO_POFF(first)) / (long)sizeof(T) < k) ==> out[(VWO_POFF(gp) - VWO_POFF(first)) / (long)sizeof(T)] == *gp)
     __CPROVER_decreases(n - k)
     out[k] = first[k];
   return out + n;
@@ -188,7 +190,7 @@ static inline void K_sptr_reset(T** p)
 
 /* set_offset: index range shifts, elements keep their values: new[min_index + k] == old[start + k] */
 #define CONTRACT_K_vwo_set_offset                                                                                    \
-  __CPROVER_requires(VWO_VALID(self) && min_index > -VWO_MAXIDX && min_index < VWO_MAXIDX)                             \
+  __CPROVER_requires(VWO_VALID(self) && min_index > -VWO_MAXIDX && (long)min_index + (long)self->length <= VWO_MAXIDX && min_index < VWO_MAXIDX)                             \
   __CPROVER_requires(self->length == 0 || (g_j >= 0 && g_j < (long)self->length))                                      \
   __CPROVER_assigns(self->num, self->start)                                                                            \
   __CPROVER_ensures(VWO_VALID(self))                                                                                   \
@@ -264,39 +266,52 @@ static inline void K_sptr_reset(T** p)
 #define IDX_OK(x) ((x) > -VWO_MAXIDX && (x) < VWO_MAXIDX)
 #define GHOSTS_TIED(v)                                                                                                \
   ((v)->begin_allocated_memory == NULL ? (g_cap0 == 0 && g_off0 == 0) : (g_cap0 == VWO_CAP(v) && g_off0 == VWO_OFF(v)))
+/* pre-state quantities (CBMC's history variables accept member/pointer expressions only, so old() is applied to the fields) */
+#define OLD_CAP(v) (__CPROVER_old((v)->begin_allocated_memory) == NULL ? 0L : ((long)__CPROVER_POINTER_OFFSET(__CPROVER_old((v)->end_allocated_memory))) / (long)sizeof(T))
+#define OLD_OFF(v) (VWO_POFF(__CPROVER_old((v)->num) + __CPROVER_old((v)->start)) / (long)sizeof(T))
+#define OLD_IN_RANGE(v, i) (__CPROVER_old((v)->length) > 0 && (long)(i) >= (long)__CPROVER_old((v)->start) && (long)(i) <= (long)__CPROVER_old((v)->start) + (long)__CPROVER_old((v)->length) - 1)
+#define GK_K_vwo_reserve (VWO_IN_RANGE(self, g_i) ? &VWO_ELEM(self, g_i) : (const T*)NULL)
+#define GK_K_vwo_assign (VWO_IN_RANGE(il, g_i) ? &VWO_ELEM(il, g_i) : (const T*)NULL)
 #define ELEM_GHOST(v) ((v)->length == 0 || (VWO_IN_RANGE(v, g_i) && g_p == &VWO_ELEM(v, g_i)))
 #define VWO_FIELDS(v) (v)->num, (v)->length, (v)->start, (v)->begin_allocated_memory, (v)->end_allocated_memory, (v)->allocated_memory_sptr
+
+/* the block after the call is a live object of its own (must be the first ensures clause: when the contract REPLACES a
+   call this is what gives the caller a block it can read and write; when the contract is ENFORCED it is checked) */
+#define BLOCK_IS_OBJECT(v)                                                                                            \
+  __CPROVER_ensures((v)->begin_allocated_memory == NULL                                                                \
+                    || (VWO_POFF((v)->end_allocated_memory) <= (long)(VWO_MAXLEN * sizeof(T))                          \
+                        && __CPROVER_is_fresh((v)->begin_allocated_memory, VWO_POFF((v)->end_allocated_memory))))
 
 /* reserve(lo,hi): capacity grows to cover [lo,hi] as well as the old capacity range; index range and every element unchanged */
 #define CONTRACT_K_vwo_reserve                                                                                       \
   __CPROVER_requires(VWO_VALID(self) && !self->pointer_access && IDX_OK(new_capacity_min_index) && IDX_OK(new_capacity_max_index)) \
-  __CPROVER_requires(GHOSTS_TIED(self) && ELEM_GHOST(self))                                                            \
   __CPROVER_requires(self->length == 0 ? (long)new_capacity_max_index - new_capacity_min_index + 1 <= VWO_MAXLEN       \
                      : MAXL(CAPMAX(self), new_capacity_max_index) - MINL(CAPMIN(self), new_capacity_min_index) + 1 <= VWO_MAXLEN) \
   __CPROVER_assigns(self->num, self->begin_allocated_memory, self->end_allocated_memory, self->allocated_memory_sptr)  \
   __CPROVER_frees(self->allocated_memory_sptr)                                                                         \
+  BLOCK_IS_OBJECT(self)                                                                                                \
   __CPROVER_ensures(VWO_VALID(self) && self->length == __CPROVER_old(self->length) && self->start == __CPROVER_old(self->start)) \
-  __CPROVER_ensures(self->length > 0 ==> VWO_ELEM(self, g_i) == __CPROVER_old(VWO_ELEM(self, g_i)))                    \
+  __CPROVER_ensures(VWO_IN_RANGE(self, g_i) ==> VWO_ELEM(self, g_i) == __CPROVER_old(VWO_ELEM(self, g_i)))             \
   __CPROVER_ensures((new_capacity_min_index <= new_capacity_max_index && self->length == 0)                            \
                     ==> VWO_CAP(self) >= (long)new_capacity_max_index - new_capacity_min_index + 1)                    \
   __CPROVER_ensures((self->length > 0)                                                                                 \
                     ==> (CAPMIN(self) <= new_capacity_min_index && CAPMAX(self) >= new_capacity_max_index              \
-                         && CAPMIN(self) <= VWO_MIN(self) - g_off0 && CAPMAX(self) >= VWO_MIN(self) - g_off0 + g_cap0 - 1)) \
-  __CPROVER_ensures(VWO_CAP(self) >= g_cap0)
+                         && CAPMIN(self) <= VWO_MIN(self) - OLD_OFF(self) && CAPMAX(self) >= VWO_MIN(self) - OLD_OFF(self) + OLD_CAP(self) - 1)) \
+  __CPROVER_ensures(VWO_CAP(self) >= OLD_CAP(self))
 
 /* resize(lo,hi): new index range exactly [lo,hi] (empty if lo>hi); surviving elements keep their values */
 #define RESIZE_CONTRACT                                                                                               \
   __CPROVER_requires(VWO_VALID(self) && !self->pointer_access && IDX_OK(min_index) && IDX_OK(max_index))               \
-  __CPROVER_requires(GHOSTS_TIED(self) && ELEM_GHOST(self))                                                            \
   __CPROVER_requires(min_index > max_index                                                                             \
                      || (self->length == 0 ? (long)max_index - min_index + 1 <= VWO_MAXLEN                             \
                          : MAXL(CAPMAX(self), max_index) - MINL(CAPMIN(self), min_index) + 1 <= VWO_MAXLEN)) \
   __CPROVER_assigns(VWO_FIELDS(self))                                                                                  \
   __CPROVER_frees(self->allocated_memory_sptr)                                                                         \
+  BLOCK_IS_OBJECT(self)                                                                                                \
   __CPROVER_ensures(VWO_VALID(self))                                                                                   \
   __CPROVER_ensures(min_index > max_index ? self->length == 0                                                          \
                                           : (self->start == min_index && (long)self->length == (long)max_index - min_index + 1)) \
-  __CPROVER_ensures((__CPROVER_old(self->length) > 0 && min_index <= g_i && g_i <= max_index)                          \
+  __CPROVER_ensures((OLD_IN_RANGE(self, g_i) && min_index <= g_i && g_i <= max_index)                  \
                     ==> VWO_ELEM(self, g_i) == __CPROVER_old(VWO_ELEM(self, g_i)))
 #define CONTRACT_K_vwo_resize RESIZE_CONTRACT
 #define CONTRACT_K_vwo_grow RESIZE_CONTRACT
@@ -304,13 +319,12 @@ static inline void K_sptr_reset(T** p)
 /* Array<1,T>::resize: as above, and "elements newly exposed by growing a numeric array are zero" (ghost g_j: any new index) */
 #define CONTRACT_K_arr1_resize                                                                                       \
   RESIZE_CONTRACT                                                                                                      \
-  __CPROVER_requires(g_cap0 >= 0)                                                                                      \
   __CPROVER_ensures((min_index <= g_j && g_j <= max_index                                                              \
                      && !(__CPROVER_old(self->length) > 0 && (long)g_j >= (long)__CPROVER_old(self->start)             \
                           && (long)g_j <= (long)__CPROVER_old(self->start) + (long)__CPROVER_old(self->length) - 1))   \
                     ==> VWO_ELEM(self, g_j) == 0)
 #define ZERO_INV(lo)                                                                                                  \
-  __CPROVER_assigns(i, FRAME_ELEMS(self))                                                                              \
+  __CPROVER_assigns(i; self->begin_allocated_memory != NULL : __CPROVER_object_whole(self->begin_allocated_memory))                                                                              \
   __CPROVER_loop_invariant((long)i >= VWO_MIN(self) && (long)i <= VWO_MAX(self) + 1)
 /* loop 0: old vector empty: everything zeroed */
 #define LC_K_arr1_resize_0                                                                                           \
@@ -338,12 +352,11 @@ static inline void K_sptr_reset(T** p)
   __CPROVER_requires(VWO_VALID(self) && VWO_VALID(il) && !self->pointer_access)                                        \
   __CPROVER_requires(self == il || self->begin_allocated_memory == NULL || il->begin_allocated_memory == NULL         \
                      || !__CPROVER_same_object(self->begin_allocated_memory, il->begin_allocated_memory))              \
-  __CPROVER_requires(il->length == 0 || (VWO_IN_RANGE(il, g_i) && g_p == &VWO_ELEM(il, g_i)))                          \
   __CPROVER_assigns(VWO_FIELDS(self); self->begin_allocated_memory != NULL : __CPROVER_object_whole(self->begin_allocated_memory))    \
   __CPROVER_frees(self->allocated_memory_sptr)                                                                         \
   __CPROVER_ensures(VWO_VALID(self) && __CPROVER_return_value == self)                                                 \
   __CPROVER_ensures(self->length == il->length && self->start == il->start)                                           \
-  __CPROVER_ensures(il->length > 0 ==> VWO_ELEM(self, g_i) == VWO_ELEM(il, g_i))
+  __CPROVER_ensures(VWO_IN_RANGE(il, g_i) ==> VWO_ELEM(self, g_i) == VWO_ELEM(il, g_i))
 
 #define CONTRACT_K_vwo_init0 __CPROVER_assigns(VWO_FIELDS(self)) __CPROVER_ensures(VWO_VALID(self) && self->length == 0 && self->begin_allocated_memory == NULL)
 #define CONTRACT_K_vwo__destruct_and_deallocate __CPROVER_requires(VWO_VALID(self)) __CPROVER_assigns(self->allocated_memory_sptr) __CPROVER_frees(self->allocated_memory_sptr) __CPROVER_ensures(self->allocated_memory_sptr == NULL)
